@@ -47,7 +47,12 @@ def _run_all(repo, pids=None, share=True):
             try:
                 res = cache.get(pid)
                 if res is None:
-                    res = mod.run(ctx, "quick")
+                    ctx._extra["borrow_stack"] = [pid]
+                    ctx._extra["borrow_cut"] = False
+                    try:
+                        res = mod.run(ctx, "quick")
+                    finally:
+                        ctx._extra["borrow_stack"] = []
                     cache[pid] = res
                 if res.floor_errors and not res.findings:
                     raise AnalysisError("; ".join(res.floor_errors))
